@@ -187,9 +187,11 @@ AXES = [
             ("lower", ax_t03([(1, F(0), "b4")], True)),
         ],
     ),
-    ("t08", [("m1q", ax_t08([(1, F(1, 4), "01")], {"01": "133.337"})), ("two", ax_t08([(0, F(1, 2), "0A"), (2, F(0), "02")], {"0A": "90.5", "02": "187.5"})), ("at00", ax_t08([(0, F(0), "01")], {"01": "60.001"})), ("id-lower-0b", ax_t08([(1, F(1, 2), "0b")], {"0b": "150.5"}))]),
+    ("t08", [("m1q", ax_t08([(1, F(1, 4), "01")], {"01": "133.337"})), ("two", ax_t08([(0, F(1, 2), "0A"), (2, F(0), "02")], {"0A": "90.5", "02": "187.5"})), ("at00", ax_t08([(0, F(0), "01")], {"01": "60.001"})), ("id-lower-0b", ax_t08([(1, F(1, 2), "0b")], {"0b": "150.5"})),
+             # ids that begin with a letter of the header's own name (#BPMB1, #BPMPM, #BPMMB) and the last id ZZ
+             ("ids-BPM-letters", ax_t08([(1, F(0), "B1"), (1, F(1, 2), "PM"), (2, F(0), "MB")], {"B1": "60.5", "PM": "241.25", "MB": "99.75"})), ("id-ZY", ax_t08([(1, F(1, 4), "ZY")], {"ZY": "77.7"}))]),
     ("ln", [("same-measure", ax_ln(0, F(3, 4))), ("next-measure", ax_ln(1, F(1, 2))), ("obj0A", ax_ln(2, F(0), "0A"))]),
-    ("wav", [("unknown", ax_wav_unknown), ("id-1A", ax_wav_id("1A")), ("id-Z9", ax_wav_id("Z9")), ("id-10", ax_wav_id("10")), ("name-with-space", lambda doc: doc["wav"].update({"01": "my file 1.wav"})), ("id-lower-0a", ax_wav_id("0a"))]),
+    ("wav", [("unknown", ax_wav_unknown), ("id-1A", ax_wav_id("1A")), ("id-Z9", ax_wav_id("Z9")), ("id-10", ax_wav_id("10")), ("name-with-space", lambda doc: doc["wav"].update({"01": "my file 1.wav"})), ("id-lower-0a", ax_wav_id("0a")), ("id-WA", ax_wav_id("WA")), ("id-AV", ax_wav_id("AV"))]),
     ("order", [(o, ax_order(o)) for o in ("reversed", "tempo_last", "by_channel")]),
     ("split", [("on", ax_split), ("later-part-first", ax_split_rev)]),
     ("misc", [("on", ax_misc)]),
